@@ -74,5 +74,35 @@ for e in e2:
 expect("TraceDirect: projected value off by one", verdict(seqfam.SEM, "TraceDirect", e2), True)
 e3 = [e for e in ev if e["e"] != "out"]
 expect("TraceDirect: sink delivery dropped", verdict(seqfam.SEM, "TraceDirect", e3), True)
+# 4. input path (TraceIngest): counters + intervals instead of sets - the same clauses must still fire
+PIPE = os.path.join(vlib.VERIF, "spec", "pipe")
+sc = {"tr": 1, "strategy": "block", "data": 4, "max": 64, "mininc": 2, "producers": 2, "rows": 30, "slowsink": 0, "seed": 5, "perturb": True}
+ev = run("ingest", sc)
+expect("TraceIngest: recorded trace", verdict(PIPE, "TraceIngest", ev), False)
+procs = [i for i, e in enumerate(ev) if e["e"] == "proc"]
+e2 = copy.deepcopy(ev); e2.insert(procs[5] + 1, copy.deepcopy(ev[procs[5]]))
+expect("TraceIngest: one processed row reported twice", verdict(PIPE, "TraceIngest", e2), True)
+e3 = copy.deepcopy(ev); del e3[procs[7]]
+expect("TraceIngest: one processed row missing", verdict(PIPE, "TraceIngest", e3), True)
+same = [i for i in procs if ev[i]["p"] == ev[procs[0]]["p"]]
+e4 = copy.deepcopy(ev); e4[same[2]], e4[same[3]] = e4[same[3]], e4[same[2]]
+expect("TraceIngest: two rows of one producer swapped", verdict(PIPE, "TraceIngest", e4), True)
+e5 = copy.deepcopy(ev)
+for e in e5:
+    if e["e"] == "proc": e["i"] = 1000; break
+expect("TraceIngest: a processed row that was never emitted", verdict(PIPE, "TraceIngest", e5), True)
+# the admitted reorder deviation has an exact shape: one early row per installed buffer - two early rows after ONE swap are rejected
+dev = [{"tr": 1, "e": "reset", "strategy": "expand", "data": 4, "max": 16, "producers": 1, "rows": 6, "directed": 1, "strict": 0, "empties": 0}]
+dev += [{"tr": 1, "e": "emit", "p": 1, "i": i} for i in range(1, 7)] + [{"tr": 1, "e": "swap", "cap": 8, "migrated": 4}]
+one = dev + [{"tr": 1, "e": "proc", "p": 1, "i": i} for i in (3, 1, 2, 4, 5, 6)]
+two = dev + [{"tr": 1, "e": "proc", "p": 1, "i": i} for i in (3, 5, 1, 2, 4, 6)]
+stats = [{"tr": 1, "e": "stats", "dropped": 0, "cap": 8, "len": 0, "quiet": 1, "items": 6, "input": 6, "output": 6, "outdrop": 0}, {"tr": 1, "e": "quiesce"}]
+def verdict_dev(events):
+    tp = os.path.join(vlib.scratch(), "st_ingest_dev.ndjson")
+    open(tp, "w").write("\n".join(json.dumps(e) for e in events) + "\n")
+    rej, _, _ = vlib.validate(PIPE, "TraceIngest", tp, {"ExpansionReordersRows"})
+    return [r[2] for r in rej]
+expect("TraceIngest: ONE early row after one swap (the recorded deviation's shape)", verdict_dev(one + stats), False)
+expect("TraceIngest: TWO early rows after one swap", verdict_dev(two + stats), True)
 print("SELFTEST", "passed" if ok else "FAILED")
 sys.exit(0 if ok else 1)
